@@ -16,7 +16,7 @@ from .. import pddlgen as G
 from ..core_common import catom, count_groups, cstate
 
 PROP = "C03"
-BATCH = 250
+BATCH = 400
 HEADER = "From Coq Require Import PrimFloat.\nFrom Verif Require Import Spec.Pddl Corr.Core Corr.C03.\n"
 
 
@@ -363,7 +363,8 @@ def fixture_worlds(rng, tier):
         d, p = REPO / "tests" / dom, REPO / "tests" / prob
         if d.exists() and p.exists():
             jobs.append({"op": "c03.fixture_walk", "domain": str(d), "problem": str(p), "seed": rng.randint(1, 10 ** 6),
-                         "steps": (1 if d.stat().st_size > 2000 else 4) if tier == "quick" else 12, "name": dom,
+                         "steps": (1 if d.stat().st_size > 2000 else 4) if tier == "quick" else (5 if d.stat().st_size > 2000 else 12),
+                         "name": dom,
                          "big": d.stat().st_size > 2000})
     out = []
     for job, res in zip(jobs, run_impl(jobs, nproc=min(4, len(jobs))) if jobs else []):
@@ -479,8 +480,12 @@ def run(args):
              "probes_with_numeric_applied": 0, "numeric_effects_applied": 0, "discrete_effects_applied": 0,
              "d40_class_probes": 0, "features": {}, "compact_worlds": 0, "compact_fallback_full": 0}
     orders_seen = set()
-    all_worlds = worlds
+    base_worlds = worlds
     for hs in hashseeds:
+        # further hash seeds only change the NATURAL iteration order of the hash sets (forced permutations are already
+        # exhaustive): they re-run every stream, but only every 4th body of the small scope
+        all_worlds = base_worlds if hs == hashseeds[0] else \
+            [w for i, w in enumerate(base_worlds) if w["stream"] != "small-scope" or i % 4 == hs % 4]
         # in batches: results of a batch are released before the next one (the thorough tier has ~10^5 probes)
         for b0 in range(0, len(all_worlds), BATCH):
             worlds = all_worlds[b0:b0 + BATCH]
@@ -591,7 +596,8 @@ def run(args):
     cov["exhaustive"] = bool(exhaustive)
     cov["exhaustive_scope"] = ("all effect bodies of 1 or 2 items out of %d (7 primitive effects, 25 'when', 24 'forall-when' over types t and its "
                                "subtype u) x all 8 fact sets over {p o0, p o1, q} x 2 fluent valuations x 2 calls: %d bodies%s"
-                               % (len(xs_items()), len(xs_bodies()), "" if exhaustive else " (quick tier: a sample of 24 bodies)"))
+                               % (len(xs_items()), len(xs_bodies()), " under the first hash seed, every 4th body under the two further hash seeds" if exhaustive
+                                  else " (quick tier: a fixed core of 6 bodies + a sample of 18)"))
     cov["rule"] = ("streams: corpus witnesses; the repository's own domains with conditional/universal effects (miconic, learned miconic, nurikabe, spider) with "
                    "their shipped problems, states taken along a guided random walk; random typed domains (pddlgen: <=4 types, constants, 2-4 predicates, <=3 functions, actions with "
                    "add/del/assign/increase/decrease/when/forall-when kept consistent, layout/case/comment noise), 2-3 objects, random states, "
